@@ -110,6 +110,9 @@ def _child_main(sock, i: int, ps: dict, root: str, cfg: dict) -> None:
         os.environ["TMPDIR"] = os.path.join(root, "tmp")
         for k in ("TEMP", "TMP", "PLAN_VERBOSE", "PLAN_OUTPUT_DIR"):
             os.environ.pop(k, None)
+        if cfg.get("tz"):
+            os.environ["TZ"] = cfg["tz"]
+            time.tzset()
         cap = os.path.join(root, "cap")
         out_f = open(os.path.join(cap, f"{i}.out"), "w", encoding="utf-8", newline="")
         err_f = open(os.path.join(cap, f"{i}.err"), "w", encoding="utf-8", newline="")
@@ -221,7 +224,7 @@ def _run(spec, tape, root, event_timeout):
     collide = bool(spec.get("collide"))
     t0 = float(spec.get("t0", T0))
     name_seeds = [("c" if collide else f"p{i}") + ":" + str(spec.get("name_salt", 0)) for i in range(n)]
-    cfg = {"t0": t0, "name_seeds": name_seeds}
+    cfg = {"t0": t0, "name_seeds": name_seeds, "tz": spec.get("tz")}
     initial = listing(root)
 
     # fault plan (generation mode only; replay reads the tape)
